@@ -357,6 +357,8 @@ def generate(unit, template_path, repo=None, canary=False):
             cparams = [t.text for t in stt[ci + 1:pe] if t.kind == 'id']
             lifted_sig = kv['sig'][0]
             for cp in cparams:
+                if cp == '_':
+                    continue      # an ignored closure parameter binds nothing (Verus rejects `_` as a function parameter)
                 if not re.search(r'\b' + re.escape(cp) + r'\s*:', lifted_sig):
                     raise AnchorError(f'{path}: closure #{kth} of {designator}: parameter `{cp}` missing from the lifted signature')
             sl = Slice(src, stt[bo].start, stt[bc].end, (' > '.join(containers) + ' > ' if containers else '') + designator + f' > closure #{kth}')
